@@ -6,7 +6,7 @@ HOOKS = {
     "add_only": True,
 }
 ENGINES = [
-    {"name": "ENV", "path": "/verif/amc/kit + /verif/amc/explore", "serves_properties": ["C08"],
+    {"name": "ENV", "path": "/verif/amc/kit + /verif/amc/explore", "serves_properties": ["C08", "C11"],
      "kind_free_text": "deviation-bounded enumeration of environment answers on one thread: fault kind/position per handler call, veto positions, map iteration orders; every placement up to the bound is executed on the real code inside a synctest bubble"},
     {"name": "SCHED", "path": "/verif/amc/shim/vsched + /verif/amc/explore + /verif/amc/instr", "serves_properties": ["C04"],
      "kind_free_text": "stateless model checking: source instrumenter (go build -overlay) turns every sync/atomic/go/channel operation into a schedule point of a cooperative scheduler running inside a testing/synctest bubble; DFS over choice lists with iterative deviation bounding, causal zero-cost continuation, conflict-based point reduction, replayable schedules"},
@@ -78,5 +78,12 @@ LEVELS = {
         "text": "Every history up to the depth bound is replayed on a real machine once per (subscription spec, position, ctx mode); after every step the channel/ctx must be closed iff the tick history says its condition has held (or its ctx ended and a transition ran), and a state ctx must be cancelled iff its state's tick moved.",
         "design_ref": "DESIGN.md section 5 C06",
         "note": "Trusted: the harness tracer's time samples. WhenQueueEnds and multi-goroutine subscription races beyond the mid-transition window are not enumerated here.",
+    },
+    "C11": {
+        "engine": "ENV",
+        "technique": "exhaustive enumeration of map-iteration-order placements (deviation-bounded) on an instrumented build of the real machine; all executions of a case must be observationally identical",
+        "text": "Determinism is a relation between runs: instead of re-running and hoping, every map iteration the machine performs is made an explicit ordered choice and every placement of <= 1 (quick) / 2 (thorough) non-default orders is executed; results, time after each step, active-state order and handler call sequence must not change.",
+        "design_ref": "DESIGN.md section 5 C11, section 4.3",
+        "note": "Trusted: mapsites (go/types on the current tree) finds every range-over-map; instrumented build passes pkg/machine's own tests in pass-through mode. A new map range added upstream is picked up automatically.",
     },
 }
